@@ -41,6 +41,9 @@ func extraRules(c *Ctx, want map[string]bool) {
 	if want["R07g"] {
 		indexedFilesImmutable(c)
 	}
+	if want["R06f"] {
+		failFastVerdictAfterWait(c)
+	}
 }
 
 // ---------------------------------------------------------------- R01g
@@ -739,4 +742,72 @@ func constantInt(s string) (int64, bool) {
 	var v int64
 	_, err := fmt.Sscan(s, &v)
 	return v, err == nil
+}
+
+// ---------------------------------------------------------------- R06f
+
+// failFastVerdictAfterWait: in findMissingCasBlobsInternal a worker that finds
+// a blob missing sets the fail-fast flag, cancels the context and only then
+// calls wg.Done().  When the final select finds both the context done and the
+// wait channel closed it picks either case at random; the "all checks have
+// finished" case may therefore return nil (all present) although a miss was
+// signalled.  Every nil return reached through the wait channel must re-read
+// the flag after the receive.
+func failFastVerdictAfterWait(c *Ctx) {
+	R := c.R
+	R.Rule("R06f", "E2", "the verdict is read after the wait: every nil return of findMissingCasBlobsInternal that is reached through the receive from the wait channel (all backend checks finished) is dominated by a test of the fail-fast flag made after that receive (a select with both cases ready picks at random)", 1)
+	fi := c.P.MustFunc(R, "R06f", "disk.(*diskCache).findMissingCasBlobsInternal")
+	if fi == nil {
+		return
+	}
+	var b *Base
+	n := 0
+	b = NewBase(Hooks{
+		Stmt: func(x *Exec, nd ast.Node, s St) ([]St, bool) {
+			if es, ok := nd.(*ast.ExprStmt); ok {
+				if u, ok := ast.Unparen(es.X).(*ast.UnaryExpr); ok && u.Op == token.ARROW {
+					if id, ok := ast.Unparen(u.X).(*ast.Ident); ok {
+						if t := x.Fn.Info.TypeOf(id); t != nil {
+							if ch, ok := t.Underlying().(*types.Chan); ok && ch.Elem().String() == "struct{}" {
+								return []St{s.Set("viaWait", "1").Set("ffchecked", "")}, true
+							}
+						}
+					}
+				}
+			}
+			return nil, false
+		},
+		Cond: func(x *Exec, cond ast.Expr, truth bool, s St) ([]St, bool) {
+			if call, ok := ast.Unparen(cond).(*ast.CallExpr); ok {
+				if sel, ok := call.Fun.(*ast.SelectorExpr); ok && sel.Sel.Name == "Load" {
+					if t := x.Fn.Info.TypeOf(sel.X); t != nil && strings.HasSuffix(t.String(), "atomic.Bool") {
+						if truth {
+							return []St{s.Set("ffset", "1")}, true
+						}
+						return []St{s.Set("ffchecked", "1")}, true
+					}
+				}
+			}
+			return nil, false
+		},
+		Exit: func(x *Exec, ret *ast.ReturnStmt, s St) {
+			if ret == nil || len(ret.Results) != 1 || RetNil(x.Fn, s, 0) != "nil" || s.Get("viaWait") != "1" {
+				return
+			}
+			n++
+			ffOff := false
+			for a, v := range s.m {
+				if strings.HasPrefix(a, "b:failFast@") && v == "false" {
+					ffOff = true
+				}
+			}
+			R.Check(s.Get("ffchecked") == "1" || ffOff, "R06f", fmt.Sprintf("%sfindMissingCasBlobsInternal:return#%d:flag-after-wait", c.Cfg, returnOrdinal(x.Fn, ret)), c.P.Pos(ret.Pos()),
+				"the nil (all present) return after the wait re-reads the fail-fast flag",
+				"after the receive from the wait channel nil is returned without looking at the fail-fast flag: when a worker signals a miss (flag, cancel, then wg.Done) and the select sees both cases ready, it may pick this one, and an ActionResult with a missing dependency is reported as a hit", x.Trace()...)
+		},
+	})
+	b.H.Call = errFork(b)
+	x := NewExec(c.P.FlowOf(fi), b)
+	x.Run(newSt())
+	R.Check(n > 0, "R06f", c.Cfg+"findMissingCasBlobsInternal:wait-returns", c.P.Pos(fi.Decl.Pos()), "the nil return after the wait channel was found", "no nil return reached through a receive from a chan struct{} found")
 }
